@@ -616,13 +616,41 @@ func checkOptionalMessageDerefs(p *core.Prog, r *core.Report) {
 			f  *types.Var
 		}
 		var sites []dsite
+		type gsite struct {
+			in   ssa.Instruction
+			call *ssa.Call
+			fn   *types.Func
+		}
+		var getterSites []gsite
 		core.Instrs(fn, func(in ssa.Instruction) {
 			fa, ok := in.(*ssa.FieldAddr)
 			if !ok {
 				return
 			}
 			f, _ := core.LoadedField(fa.X)
-			if f == nil || f.Pkg() == nil || !strings.Contains(f.Pkg().Path(), "/pb/sf/substreams") {
+			if f == nil {
+				// the result of a generated getter (GetParams(), GetBlockFilter(), …): nil when the field — or the oneof
+				// alternative — is absent; dereferencing it needs a nil test of that very result
+				if gc, ok := fa.X.(*ssa.Call); ok {
+					if cl := core.CommonCallee(gc.Common()); cl != nil && strings.HasPrefix(cl.Name(), "Get") && cl.Pkg() != nil && strings.Contains(cl.Pkg().Path(), "/pb/sf/substreams") {
+						if sig, ok := cl.Type().(*types.Signature); ok && sig.Recv() != nil && sig.Results().Len() == 1 {
+							if pt, ok := sig.Results().At(0).Type().(*types.Pointer); ok {
+								if _, isStruct := pt.Elem().Underlying().(*types.Struct); isStruct {
+									recvT := sig.Recv().Type()
+									if rp, ok := recvT.(*types.Pointer); ok {
+										recvT = rp.Elem()
+									}
+									if clientSent[recvT.String()] {
+										getterSites = append(getterSites, gsite{in, gc, cl})
+									}
+								}
+							}
+						}
+					}
+				}
+				return
+			}
+			if f.Pkg() == nil || !strings.Contains(f.Pkg().Path(), "/pb/sf/substreams") {
 				return
 			}
 			pt, isPtr := f.Type().(*types.Pointer)
@@ -638,6 +666,98 @@ func checkOptionalMessageDerefs(p *core.Prog, r *core.Report) {
 			}
 			sites = append(sites, dsite{in, f})
 		})
+		for _, g := range getterSites {
+			var nonNil []core.Edge
+			for _, ref := range *g.call.Referrers() {
+				bo, ok := ref.(*ssa.BinOp)
+				if !ok || (bo.Op != token.EQL && bo.Op != token.NEQ) {
+					continue
+				}
+				if k, ok := bo.Y.(*ssa.Const); !ok || !k.IsNil() {
+					continue
+				}
+				for _, rr := range *bo.Referrers() {
+					if ifi, ok := rr.(*ssa.If); ok {
+						idx := 0
+						if bo.Op == token.EQL {
+							idx = 1
+						}
+						nonNil = append(nonNil, core.Edge{From: ifi.Block(), Idx: idx})
+					}
+				}
+			}
+			// the other idiom: the site lies in the case of a type switch (or behind a checked type assertion) on the oneof
+			// wrapper that the getter unwraps — `case *Module_Input_Source_: … input.GetSource().Type`
+			want := strings.TrimPrefix(g.fn.Name(), "Get")
+			core.Instrs(fn, func(x ssa.Instruction) {
+				ta, ok := x.(*ssa.TypeAssert)
+				if !ok || !ta.CommaOk {
+					return
+				}
+				pt, ok := ta.AssertedType.(*types.Pointer)
+				if !ok {
+					return
+				}
+				nt, ok := pt.Elem().(*types.Named)
+				if !ok || !strings.HasSuffix(nt.Obj().Name(), "_"+want+"_") && !strings.HasSuffix(nt.Obj().Name(), "_"+want) {
+					return
+				}
+				for _, ref := range *ta.Referrers() {
+					ex, ok := ref.(*ssa.Extract)
+					if !ok || ex.Index != 1 {
+						continue
+					}
+					for _, rr := range *ex.Referrers() {
+						if ifi, ok := rr.(*ssa.If); ok {
+							nonNil = append(nonNil, core.Edge{From: ifi.Block(), Idx: 0})
+						}
+					}
+				}
+			})
+			key := strings.NewReplacer("(", "", ")", "", "*", "").Replace(core.FuncName(fn)) + "/" + g.fn.Name() + "()"
+			q := core.PathQuery{Fn: fn, CutEdge: func(e core.Edge) bool { return containsEdge(nonNil, e) }}
+			_, unguarded := q.CanReach(nil, func(x ssa.Instruction) bool { return x == g.in })
+			if len(nonNil) > 0 && !unguarded {
+				if !seen[key] {
+					n++
+					seen[key] = true
+					r.Pass("C17.R1", "optional-message/"+key, "the result of the getter is dereferenced only behind a nil test of that result")
+				}
+				continue
+			}
+			if key == "storage/store.NewConfigMap/GetKindStore()" {
+				// P-stores-only: every caller passes Graph.Stores(), i.e. the result of ModuleGraph.StoresDownTo, which keeps the
+				// modules of kind store only (its kind filter is decided under C14.R6)
+				okPre := true
+				stores := p.FuncObj(pkgExec, "Graph.Stores")
+				if node := cg.Nodes[fn]; node == nil || len(node.In) == 0 {
+					okPre = false
+				} else {
+					for _, in := range node.In {
+						if in.Site == nil || !core.Trace(in.Site.Common().Args[1], 0).HasCall(stores) {
+							okPre = false
+						}
+					}
+				}
+				sd := p.Func(pkgMani, "ModuleGraph.StoresDownTo")
+				filtered := false
+				core.Instrs(sd, func(x ssa.Instruction) {
+					if c := core.CalleeOf(x); c != nil && c.Name() == "GetKindStore" {
+						filtered = true
+					}
+				})
+				if okPre && filtered {
+					if !seen[key] {
+						n++
+						seen[key] = true
+						r.Add(&core.Obligation{Rule: "C17.R1", Construct: "optional-message/" + key, Desc: "the getter result is dereferenced under a verified precondition [P-stores-only: both callers pass Graph.Stores() = StoresDownTo(…), which keeps modules whose GetKindStore() is non-nil]", Status: core.OK, Sites: []string{p.Pos(g.in.Pos())}})
+					}
+					continue
+				}
+			}
+			seen[key] = true
+			r.Fail("C17.R1", "optional-message/"+key, "the result of a generated getter of a request message (nil when the field or the oneof alternative is absent) is dereferenced only behind a nil test of that result", "dereference of the result of "+g.fn.Name()+"() without a nil test in "+core.FuncName(fn), p.Pos(g.in.Pos()))
+		}
 		for _, s := range sites {
 			var nonNil []core.Edge
 			core.Instrs(fn, func(in ssa.Instruction) {
